@@ -610,6 +610,11 @@ def check_no_width_narrowing_in_conversions(ctx, res, config="all"):
                     a = at.of_operand(rv["op"])
                     if _t.params_of(a) and not _t.calls_of(a):
                         bad = (rv["from"], rv["to"], s["span"]["line"])
+        # a float is never converted with a (saturating, rounding) `as` cast: the crate decodes mantissa/exponent exactly
+        for i, si, s in b.stmts():
+            rv = s.get("rv")
+            if rv and rv["k"] == "cast" and rv["ck"] == "FloatToInt":
+                bad = (rv["from"], rv["to"] + " (saturating float cast)", s["span"]["line"])
         if bad and b.path not in NARROWING_OK:
             res.fail(Finding("R2-conversion-narrowed", b.path, "the input is cast %s -> %s (line %s): inputs that need more than %s lose their high bits" % (bad[0], bad[1], bad[2], bad[1]), b, bad[2]))
         else:
